@@ -1,6 +1,7 @@
 """C07 — sub-selection, padding and resampling keep every value at its physical position."""
 import itertools
 import math
+import os
 import random
 from fractions import Fraction
 
@@ -422,6 +423,444 @@ def getitem_ops_tol(rng, spec, subs, tier):
     return ops
 
 
+# ---- streams added after the R4 seeded changes: coordinates at every relative distance from faces / boundaries,
+# ---- thousands of cells along one axis, far offsets, scales 1e-12 .. 1e9, user-defined tolerance factors, value types
+FLAG_F4_INT = os.environ.get("VERIF_C07_F4INT") == "1"  # narrow-float coordinates on integer-typed corners: see known()
+
+
+def fits(*vals):
+    """every value is a binary64 number (so the float operation producing it is exact)"""
+    return all(Fraction(float(v)) == v for v in vals)
+
+
+def decade(d):
+    """tag of a relative distance: 1e-01 .. 1e-16"""
+    return "neardist:1e-%02d" % min(16, max(1, int(math.floor(-math.log10(float(d)) + 1e-9))))
+
+
+def spec_tf(spec):
+    return Fraction(float(spec["tol"])) if spec.get("tol") is not None else Fraction(1e-12)
+
+
+def clear_of_tolerance(spec, x, dist):
+    """dist (absolute distance beyond a region boundary) is not within 1 % of the region's own allowance there"""
+    lo, hi, c = geom(spec)
+    t = spec_tf(spec) * (min(h - l for l, h in zip(lo, hi)) + abs(x))
+    return not (t * Fraction(99, 100) <= dist <= t * Fraction(101, 100)) and not \
+        (4 * t * Fraction(99, 100) <= dist <= 4 * t * Fraction(101, 100))
+
+
+EXACT_TF = [None, None, None, None, 2.0 ** -10, 2.0 ** -20, 2.0 ** -5, 1e-3, 1e-6, 1e-9, 0.0]
+TOL_TF = [None, None, None, None, 1e-3, 1e-6, 1e-9, 1e-2]
+
+
+def gen_near_mesh(rng, big=False):
+    """dyadic mesh (every float operation of the code path exact) at scale 2^-40 .. 2^30, offsets of up to millions of
+    cells, optionally thousands of cells along one axis, any tolerance factor"""
+    ndim = rng.choice([1, 2]) if big else rng.choice([1, 1, 2, 2, 3])
+    e = rng.choice([-40, -30, -20, -10, -3, 0, 0, 0, 0, 7, 10, 20, 30])
+    cell = [Fraction(rng.choice([1, 1, 1, 3, 5]), 2 ** rng.randint(0, 2)) * Fraction(2) ** e for _ in range(ndim)]
+    if big:
+        n = [rng.randint(1, 2) for _ in range(ndim)]
+        n[rng.randrange(ndim)] = rng.choice([1000, 1024, 1536, 2048, 3000, 4095, 4096])
+    else:
+        n = [rng.randint(1, 7) for _ in range(ndim)]
+        while int(np.prod(n)) > 96:
+            n[max(range(ndim), key=lambda i: n[i])] -= 1
+    off = []
+    for a in range(ndim):
+        kind = rng.choice(["zero", "zero", "centred", "small", "small", "far", "far"])
+        off.append(0 if kind == "zero" else -(n[a] // 2) if kind == "centred" else rng.randint(-40, 40) if kind == "small"
+                   else rng.choice([-1, 1]) * (2 ** rng.randint(10, 22) + rng.randint(0, 1000)))
+    pmin = [p * c for p, c in zip(off, cell)]
+    pmax = [(p + k) * c for p, k, c in zip(off, n, cell)]
+    assert fits(*pmin, *pmax)
+    spec = dict(p1=[float(x) for x in pmin], p2=[float(x) for x in pmax], n=n, dims=None, bc="")
+    if rng.random() < 0.3:
+        spec["dims"] = rng.sample(NAMES, ndim)
+    if rng.random() < 0.2:
+        spec["bc"] = "".join(d for d in dims_of(spec) if len(d) == 1 and rng.random() < 0.5)
+    if rng.random() < 0.2:
+        spec["units"] = [rng.choice(["m", "nm", "s", "T"]) for _ in range(ndim)]
+    tf = rng.choice(EXACT_TF)
+    if tf is not None:
+        spec["tol"] = tf
+    for a in range(ndim):
+        if rng.random() < 0.2:
+            spec["p1"][a], spec["p2"][a] = spec["p2"][a], spec["p1"][a]
+    return spec
+
+
+def near_exact(rng, spec, subs, ax, where=None, side=None, inside=False):
+    """coordinate at distance 2^-k cell (k = 1..50: 0.5 .. 1e-15 cell) above or below a cell face / the region
+    boundary / a subregion face, such that it and all intermediate quantities of the code path are binary64 numbers"""
+    lo, hi, c = geom(spec)
+    n = spec["n"][ax]
+    l, h, cc = lo[ax], hi[ax], c[ax]
+    where = where or rng.choice(["face", "face", "lo", "hi", "sub"])
+    if where == "sub":
+        if subs:
+            s0 = rng.choice(subs)
+            face = FR(s0[rng.choice([1, 2])][ax])
+        else:
+            where = "face"
+    if where == "face":
+        face = l + (rng.randint(1, n - 1) if n >= 2 else rng.choice([0, n])) * cc
+    elif where == "lo":
+        face = l
+    elif where == "hi":
+        face = h
+    s = side or rng.choice([1, -1])
+    if inside and face == l:
+        s = 1
+    if inside and face == h:
+        s = -1
+    k = rng.randint(1, 50)
+    while k >= 1:
+        x = face + s * cc / 2 ** k
+        q = (x - l) / cc
+        if fits(x, x - l, q, x + cc / 2, x - cc / 2, x + cc / 2 - l, x - cc / 2 - l, q + Fraction(1, 2), q - Fraction(1, 2), h - x) \
+                and ((l <= x <= h) or clear_of_tolerance(spec, x, cc / 2 ** k)):
+            break
+        k -= 1
+    else:
+        return None
+    out = x < l or x > h
+    return dict(x=x, out=out, tag=("out" if out else where),
+                xt=[f"near:{where}:{'above' if s > 0 else 'below'}", decade(Fraction(1, 2 ** k))] + (["near:outside"] if out else []))
+
+
+def value_types(spec, x):
+    """numeric types in which a coordinate can be handed over without changing it (None = Python float)"""
+    int_corners = all(isinstance(v, int) for v in list(spec["p1"]) + list(spec["p2"]))
+    kinds = [None, None, None, "f8"]
+    fx = float(x)
+    if fx.is_integer() and abs(fx) < 2 ** 31:
+        kinds += ["int", "i8", "i4"]
+    if not int_corners or FLAG_F4_INT:  # narrow floats on integer-typed corners: genuine defect, see known()
+        with np.errstate(over="ignore"):
+            if float(np.float32(fx)) == fx:
+                kinds.append("f4")
+            if float(np.float16(fx)) == fx:
+                kinds.append("f2")
+    return kinds
+
+
+def with_types(rng, spec, arg):
+    """the same request with the coordinate(s) in another numeric type / the pair in another container"""
+    if "point" in arg:
+        t = rng.choice(value_types(spec, arg["point"]))
+    else:
+        k1, k2 = (value_types(spec, v) for v in arg["range"])
+        t = rng.choice([k for k in k1 if k in k2])
+        b = rng.choice([None, None, "list", "array"])
+        if b:
+            arg = dict(arg, box=b)
+    if t:
+        arg = dict(arg, **{"as": t})
+    return arg
+
+
+def interior_exact(rng, spec, ax):
+    lo, hi, c = geom(spec)
+    return lo[ax] + (rng.randrange(spec["n"][ax]) + Fraction(rng.randint(1, 7), 8)) * c[ax]
+
+
+def sel_ops_near_exact(rng, spec, subs, tier, big=False):
+    ops = []
+    dims = dims_of(spec)
+    axes = list(range(len(dims)))
+    if big:
+        axes = [max(axes, key=lambda a: spec["n"][a])]
+    npts = 7 if big else (8 if tier == "quick" else 16)
+    for ax in axes:
+        d = dims[ax]
+        pts = [near_exact(rng, spec, subs, ax, where=w, side=sd) for w, sd in
+               [("lo", -1), ("lo", 1), ("hi", 1), ("hi", -1), ("face", 1), ("face", -1)]]
+        pts += [near_exact(rng, spec, subs, ax) for _ in range(npts)]
+        pts = [p for p in pts if p]
+        for p in pts:
+            ops.append(dict(op="sel", dim=d, arg=with_types(rng, spec, {"point": num(p["x"])}), tag="ptnear-" + p["tag"], xt=p["xt"]))
+        ins = [p for p in pts if not p["out"]]
+        pairs = [(rng.choice(pts), rng.choice(pts)) for _ in range(3)] + [(rng.choice(ins), rng.choice(ins)) for _ in range(5) if ins]
+        for p in rng.sample(pts, min(3, len(pts))):
+            pairs.append((p, dict(x=interior_exact(rng, spec, ax), out=False, tag="interior", xt=[])))
+        for p, q in pairs:
+            ops.append(dict(op="sel", dim=d, arg=with_types(rng, spec, {"range": [num(p["x"]), num(q["x"])]}),
+                            tag=f"rgnear-{p['tag']}-{q['tag']}", xt=sorted(set(p["xt"] + q["xt"]))))
+    return ops
+
+
+def near_boxes_exact(rng, spec, subs, count, allow_out=True):
+    lo, hi, c = geom(spec)
+    ndim = len(lo)
+    out = []
+    for _ in range(count):
+        a, b, xt, anyout = [], [], [], False
+        outside_ok = allow_out and rng.random() < 0.25
+        for ax in range(ndim):
+            cand = []
+            for _ in range(2):
+                u = rng.random()
+                if u < 0.6:
+                    p = near_exact(rng, spec, subs, ax, inside=not outside_ok)
+                    if p:
+                        cand.append((p["x"], p["xt"], p["out"]))
+                        continue
+                if u < 0.8:
+                    cand.append((lo[ax] + rng.randint(0, spec["n"][ax]) * c[ax], [], False))
+                else:
+                    cand.append((interior_exact(rng, spec, ax), [], False))
+            cand.sort(key=lambda t: t[0])
+            if cand[0][0] == cand[1][0]:
+                cand = [(lo[ax], [], False), (hi[ax], [], False)]
+            a.append(cand[0][0])
+            b.append(cand[1][0])
+            xt += cand[0][1] + cand[1][1]
+            anyout = anyout or cand[0][2] or cand[1][2]
+        out.append(("nearout" if anyout else "near", [num(x) for x in a], [num(x) for x in b], sorted(set(xt))))
+    return out
+
+
+def getitem_ops_near_exact(rng, spec, subs, tier, big=False):
+    ops = [dict(op="getname", name=s[0], tag="name") for s in subs]
+    for t, a, b, xt in near_boxes_exact(rng, spec, subs, 6 if big else (9 if tier == "quick" else 20)):
+        ops.append(dict(op="getregion", p1=a, p2=b, tag="box-" + t, xt=xt))
+        ops.append(dict(op="r2s", p1=a, p2=b, tag="r2s-" + t))
+    return ops
+
+
+def malformed_ops(rng, spec, fam):
+    """requests that are malformed in every way the call signature allows"""
+    dims = dims_of(spec)
+    lo, hi, c = geom(spec)
+    ops = []
+    if fam == "sel":
+        for kind in rng.sample(BAD_SEL, 7):
+            ax = rng.randrange(len(dims))
+            if kind in ("twokw",) and len(dims) < 2:
+                continue
+            ax2 = rng.choice([b for b in range(len(dims)) if b != ax] or [ax])
+            ops.append(dict(op="sel", dim=dims[ax], dim2=dims[ax2], arg=kind, x=num(interior_exact(rng, spec, ax)),
+                            x2=num(interior_exact(rng, spec, ax2)), tag="malformed-" + kind, xt=["malformed:sel:" + kind]))
+    elif fam == "getitem":
+        for kind in rng.sample(BAD_ITEMS, 4):
+            if kind == "reg-lessdim" and len(dims) < 2:
+                continue
+            ops.append(dict(op="getbad", kind=kind, tag="malformed-" + kind, xt=["malformed:getitem:" + kind]))
+    elif fam == "pad":
+        for kind in rng.sample(list(RAW_PAD) + ["badmode"], 3):
+            ops.append(dict(op="pad", pad=[[rng.choice(dims), 1, 1]], mode=rng.choice(MODES), raw=kind, nomodel=True,
+                            tag="malformed-" + kind, xt=["malformed:pad:" + kind]))
+    else:
+        n = list(spec["n"])
+        k = rng.randrange(len(n))
+        for kind, bad in (("float", n[:k] + [2.5] + n[k + 1:]), ("floatint", n[:k] + [2.0] + n[k + 1:]), ("str", "ab"),
+                          ("none", None), ("nested", [list(n)] * len(n)), ("short", n[:-1])):
+            if rng.random() < 0.5:
+                ops.append(dict(op="resample", n=bad, nomodel=True, tag="malformed-" + kind, xt=["malformed:resample:" + kind]))
+    return ops
+
+
+def pad_ops_wide(rng, spec):
+    """hundreds of padding layers (iterated wrap / mirror images many periods away); result of at most ~6000 cells"""
+    dims = dims_of(spec)
+    n = spec["n"]
+    ops = []
+    for mode in rng.sample(MODES, 2):
+        ax = rng.randrange(len(dims))
+        room = 6000 // (int(np.prod(n)) // n[ax]) - n[ax]
+        if room < 20:
+            continue
+        lo = rng.choice([0, 17, 100, 257])
+        hi = rng.choice([64, 300, 1000])
+        while lo + hi > room:
+            lo, hi = lo // 2, max(1, hi // 2)
+        ops.append(dict(op="pad", pad=[[dims[ax], lo, hi]], mode=mode, tag="padhuge-" + mode, xt=["pad:tens-to-hundreds-of-layers"]))
+    return ops
+
+
+def resample_ops_large(rng, spec, big):
+    """to thousands of cells along one axis (small sources), from thousands of cells (oracle only)"""
+    n = spec["n"]
+    ndim = len(n)
+    ops = []
+    if big:
+        for _ in range(2):
+            m = [rng.choice([1, 2, 3, 5, 7, k, max(1, k // 2), k + 1, 2 * k]) if k < 100 else rng.choice([1, 2, 3, 7, 100, k // 2, k - 1, k, k + 1]) for k in n]
+            ops.append(dict(op="resample", n=m, nomodel=True, tag="rsfromlarge", xt=["resample:from-thousands"]))
+    else:
+        m = [rng.choice([1, 2, k]) for k in n]
+        a = rng.randrange(ndim)
+        m[a] = rng.choice([1000, 1024, 2048, 3001, 4096])
+        while int(np.prod(m)) > 4200:
+            b = max((b for b in range(ndim) if b != a), key=lambda b: m[b])
+            m[b] = 1
+        if max(n) <= 8:
+            ops.append(dict(op="resample", n=m, tag="rstolarge", xt=["resample:to-thousands"]))
+    return ops
+
+
+# ---- tolerance regime, extended
+def gen_tol_mesh_wide(rng, big=False):
+    """arbitrary (non-representable) cells at scales 1e-12 .. 1e9, offsets of up to a million cells, optionally
+    thousands of cells along one axis, any tolerance factor"""
+    ndim = rng.choice([1, 2]) if big else rng.choice([1, 1, 2, 2, 3])
+    scale = rng.choice([1e-12, 1e-11, 1e-9, 1e-6, 1e-3, 1.0, 1.0, 1e3, 1e6, 1e9])
+    cell = [scale * rng.choice([0.1, 0.15, 0.3, 1.0 / 3.0, 0.7, 5.0, 2.5, 0.05, 1.0, 1.1, 7e-2]) for _ in range(ndim)]
+    if big:
+        n = [rng.randint(1, 2) for _ in range(ndim)]
+        n[rng.randrange(ndim)] = rng.choice([1000, 1500, 2048, 2990, 3000, 4096])
+    else:
+        n = [rng.randint(1, 9) for _ in range(ndim)]
+        while int(np.prod(n)) > 120:
+            n[max(range(ndim), key=lambda i: n[i])] -= 1
+    p1 = []
+    for c in cell:
+        kind = rng.choice(["zero", "small", "small", "odd", "far", "far"])
+        p1.append(0.0 if kind == "zero" else c * rng.randint(-10, 10) if kind == "small" else -3.7 * c if kind == "odd"
+                  else c * rng.choice([-1, 1]) * rng.randint(10 ** 3, 10 ** rng.randint(4, 6)))
+    p2 = [a + k * c for a, k, c in zip(p1, n, cell)]
+    spec = dict(p1=p1, p2=p2, n=n, dims=None, bc="")
+    tf = rng.choice(TOL_TF)
+    if tf is not None:
+        spec["tol"] = tf
+    return spec
+
+
+def near_tol(rng, spec, subs, ax, where=None, side=None, inside=False):
+    """coordinate at 1e-1 .. 1e-15 cell (x 1, 2.5, 5) above / below a face as the implementation or a user computes it;
+    where the offset is below the spacing of floats there, the neighbouring float"""
+    lo, hi, verts = tol_vertices(spec)
+    k = spec["n"][ax]
+    l, h = lo[ax], hi[ax]
+    c = (h - l) / k
+    where = where or rng.choice(["face", "face", "lo", "hi", "sub"])
+    if where == "sub":
+        if subs:
+            face = float(rng.choice(subs)[rng.choice([1, 2])][ax])
+        else:
+            where = "face"
+    if where == "face":
+        face = verts[ax][rng.randrange(2)][rng.randint(1, k - 1) if k >= 2 else rng.choice([0, k])]
+    elif where == "lo":
+        face = l
+    elif where == "hi":
+        face = h
+    s = side or rng.choice([1, -1])
+    if inside and face <= l:
+        s = 1
+    if inside and face >= h:
+        s = -1
+    d = 10.0 ** -rng.randint(1, 15) * rng.choice([1.0, 2.5, 5.0])
+    x = face + s * d * c
+    if x == face:
+        x = float(np.nextafter(face, s * math.inf))
+    if inside:
+        x = min(max(x, l), h)
+    out = x < l or x > h
+    return dict(x=x, out=out, tag=("out" if out else where),
+                xt=[f"near:{where}:{'above' if s > 0 else 'below'}", decade(d)] + (["near:outside"] if out else []))
+
+
+def boundary_hairs(rng, spec, ax):
+    """just outside / just inside the region boundary: neighbouring floats, 1e-13 and 1e-6 of the edge / of a cell"""
+    lo, hi, verts = tol_vertices(spec)
+    l, h = lo[ax], hi[ax]
+    c = (h - l) / spec["n"][ax]
+    out = []
+    for name, x in (("ulp-below-lo", float(np.nextafter(l, -math.inf))), ("ulp-above-hi", float(np.nextafter(h, math.inf))),
+                    ("ulp-above-lo", float(np.nextafter(l, math.inf))), ("ulp-below-hi", float(np.nextafter(h, -math.inf))),
+                    ("1e-13edge-below-lo", l - 1e-13 * (h - l)), ("1e-13edge-above-hi", h + 1e-13 * (h - l)),
+                    ("1e-6cell-below-lo", l - 1e-6 * c), ("1e-6cell-above-hi", h + 1e-6 * c),
+                    ("1cell-below-lo", l - c), ("1cell-above-hi", h + c), ("edge-above-hi", h + (h - l))):
+        o = x < l or x > h
+        out.append(dict(x=x, out=o, tag=("out" if o else "hair"), xt=["hair:" + name] + (["near:outside"] if o else [])))
+    return out
+
+
+def sel_ops_near_tol(rng, spec, subs, tier, big=False):
+    ops = []
+    dims = dims_of(spec)
+    axes = list(range(len(dims)))
+    if big:
+        axes = [max(axes, key=lambda a: spec["n"][a])]
+    for ax in axes:
+        d = dims[ax]
+        hairs = boundary_hairs(rng, spec, ax)
+        pts = rng.sample(hairs, 5) + [near_tol(rng, spec, subs, ax) for _ in range(6 if big else 8)]
+        for p in pts:
+            ops.append(dict(op="sel", dim=d, arg={"point": p["x"]}, tag="ptnear-" + p["tag"], xt=p["xt"]))
+        ins = [p for p in pts if not p["out"]]
+        mid = dict(x=tol_vertices(spec)[0][ax] + (rng.randrange(spec["n"][ax]) + rng.uniform(0.1, 0.9)) * ((tol_vertices(spec)[1][ax] - tol_vertices(spec)[0][ax]) / spec["n"][ax]),
+                   out=False, tag="interior", xt=[])
+        pairs = [(rng.choice(pts), rng.choice(pts)) for _ in range(2)] + [(rng.choice(ins + [mid]), rng.choice(ins + [mid])) for _ in range(5)]
+        pairs += [(p, mid) for p in rng.sample(hairs, 3)]
+        for p, q in pairs:
+            ops.append(dict(op="sel", dim=d, arg={"range": [p["x"], q["x"]]}, tag=f"rgnear-{p['tag']}-{q['tag']}",
+                            xt=sorted(set(p["xt"] + q["xt"]))))
+    return ops
+
+
+def getitem_ops_near_tol(rng, spec, subs, tier, big=False):
+    lo, hi, verts = tol_vertices(spec)
+    ndim = len(lo)
+    ops = [dict(op="getname", name=s[0], tag="name") for s in subs]
+    for _ in range(5 if big else 8):
+        a, b, xt, anyout = [], [], [], False
+        outside_ok = rng.random() < 0.25
+        for ax in range(ndim):
+            cand = []
+            for _ in range(2):
+                u = rng.random()
+                if u < 0.65:
+                    p = near_tol(rng, spec, subs, ax, inside=not outside_ok)
+                elif u < 0.8:
+                    p = rng.choice([h for h in boundary_hairs(rng, spec, ax) if outside_ok or not h["out"]])
+                else:
+                    p = dict(x=verts[ax][rng.randrange(2)][rng.randint(0, spec["n"][ax])], xt=[], out=False)
+                cand.append((p["x"], p["xt"], p["out"]))
+            cand.sort(key=lambda t: t[0])
+            if cand[0][0] == cand[1][0]:
+                cand = [(lo[ax], [], False), (hi[ax], [], False)]
+            a.append(cand[0][0])
+            b.append(cand[1][0])
+            xt += cand[0][1] + cand[1][1]
+            anyout = anyout or cand[0][2] or cand[1][2]
+        t = "nearout" if anyout else "near"
+        ops.append(dict(op="getregion", p1=a, p2=b, tag="box-" + t, xt=sorted(set(xt))))
+        ops.append(dict(op="r2s", p1=a, p2=b, tag="r2s-" + t))
+    return ops
+
+
+def near_cases(rng, tier):
+    quick = tier == "quick"
+    plan = [("exact", False)] * (9 if quick else 70) + [("exact", True)] * (4 if quick else 20) + \
+           [("tol", False)] * (9 if quick else 70) + [("tol", True)] * (4 if quick else 20)
+    for regime, big in plan:
+        exact = regime == "exact"
+        spec = (gen_near_mesh if exact else gen_tol_mesh_wide)(rng, big)
+        subs = [] if big else (gen_subs_exact(rng, spec) if exact else gen_subs_tol(rng, spec))
+        for fam in ["sel", "getitem", "pad", "resample"]:
+            if fam == "sel":
+                ops = (sel_ops_near_exact if exact else sel_ops_near_tol)(rng, spec, subs, tier, big)
+            elif fam == "getitem":
+                ops = (getitem_ops_near_exact if exact else getitem_ops_near_tol)(rng, spec, subs, tier, big)
+            elif fam == "pad":
+                ops = pad_ops(rng, spec, tier)[:3] + pad_ops_wide(rng, spec)
+            else:
+                ops = resample_ops_large(rng, spec, big)
+                if not big:
+                    ops += resample_ops(rng, spec, tier)[:3]
+            if exact and not big:
+                ops += malformed_ops(rng, spec, fam)
+            if not ops:
+                continue
+            yield dict(regime=regime, fam=fam, stream="near-big" if big else "near", mesh=spec, subs=subs,
+                       nvdim=rng.choice([1, 1, 2]) if big else rng.choice([1, 2, 3]),
+                       density=rng.choice([1.0, 0.7]), sub=rng.getrandbits(32), ops=ops)
+
+
 def cases(rng, tier):
     nex = 26 if tier == "quick" else 200
     ntol = 30 if tier == "quick" else 250
@@ -441,6 +880,7 @@ def cases(rng, tier):
             yield dict(regime="exact", fam=fam, mesh=spec, subs=subs, nvdim=rng.choice([1, 1, 2, 3]),
                        density=rng.choice([1.0, 0.8, 0.5]), sub=rng.getrandbits(32), ops=ops)
     yield from meta_cases(rng, tier)
+    yield from near_cases(rng, tier)
     for k in range(ntol):
         spec = int_tol_mesh(rng) if k % 5 == 4 else gen_tol_mesh(rng, big=(k % 3 == 0))
         subs = gen_subs_tol(rng, spec)
@@ -509,6 +949,8 @@ def build(case):
         kw["dims"] = ms["dims"]
     if ms.get("units"):
         kw["units"] = ms["units"]
+    if ms.get("tol") is not None:  # user-defined tolerance factor of the region
+        kw["tolerance_factor"] = ms["tol"]
     region = df.Region(p1=ms["p1"], p2=ms["p2"], **kw)
     subs = {name: df.Region(p1=a, p2=b) for name, a, b in case.get("subs", [])}
     mesh = df.Mesh(region=region, n=ms["n"], bc=ms.get("bc", ""), subregions=subs)
@@ -582,17 +1024,52 @@ def attempt(fn):
         return ("err", f"{type(e).__name__}: {str(e)[:90]}")
 
 
+# malformed selection requests: every kind of wrong value / wrong call shape (all must be refused)
+BAD_SEL = ["bad3", "bad1", "bad0", "badstr", "badstrs", "badmixed", "badnone2", "baddict", "badcomplex", "badnested",
+           "badset", "badarr2d", "badstrnum", "badcplxrange", "twokw", "posandkw", "noargs", "twopos", "dimint",
+           "nan", "inf", "-inf", "rginf", "rg-inf", "rgnan", "rgnan2"]
+
+
+def conv_num(x, kind):
+    """the same number in another numeric type (the generator only asks for exact conversions)"""
+    if kind in (None, "float"):
+        return x
+    if kind == "int":
+        return int(x)
+    return {"f4": np.float32, "f2": np.float16, "f8": np.float64, "i8": np.int64, "i4": np.int32}[kind](x)
+
+
 def sel_call(op):
     arg = op["arg"]
+    d = op["dim"]
     if arg is None:
-        return (op["dim"],), {}
-    if arg == "bad3":
-        return (), {op["dim"]: (0.0, 1.0, 2.0)}
-    if arg == "badstr":
-        return (), {op["dim"]: "a"}
+        return (d,), {}
+    if isinstance(arg, str):
+        x = op.get("x", 0.0)  # a coordinate inside the region
+        d2 = op.get("dim2") or d
+        nan, inf = float("nan"), float("inf")
+        val = {"bad3": (0.0, 1.0, 2.0), "bad1": (x,), "bad0": (), "badstr": "a", "badstrs": ("a", "b"), "badmixed": (x, "a"),
+               "badnone2": (None, x), "baddict": {"a": 1}, "badcomplex": 1j, "badnested": ((x, x), (x, x)), "badset": {x, x + 1.0},
+               "badarr2d": np.zeros((2, 2)) + x, "badstrnum": repr(x), "badcplxrange": (1j, x),
+               "nan": nan, "inf": inf, "-inf": -inf, "rginf": (x, inf), "rg-inf": (-inf, x), "rgnan": (nan, x), "rgnan2": (x, nan)}
+        if arg in val:
+            return (), {d: val[arg]}
+        if arg == "twokw":
+            return (), {d: x, d2: op.get("x2", 0.0)}
+        if arg == "posandkw":
+            return (d,), {d2: op.get("x2", 0.0)}
+        if arg == "noargs":
+            return (), {}
+        if arg == "twopos":
+            return (d, d2), {}
+        if arg == "dimint":
+            return (0,), {}
+        raise ValueError(arg)
     if "point" in arg:
-        return (), {op["dim"]: arg["point"]}
-    return (), {op["dim"]: tuple(arg["range"])}
+        return (), {d: conv_num(arg["point"], arg.get("as"))}
+    rg = [conv_num(v, arg.get("as")) for v in arg["range"]]
+    box = arg.get("box")
+    return (), {d: (list(rg) if box == "list" else np.array(rg) if box == "array" else tuple(rg))}
 
 
 def pad_rule_index(mode, n, lo, j):
@@ -630,6 +1107,11 @@ class Ctx:
         self.hi = [FR(x) for x in m.region.pmax]
         self.n = [int(k) for k in m.n]
         self.c = [(h - l) / k for l, h, k in zip(self.lo, self.hi, self.n)]  # the model's exact cell
+        self.tf = FR(m.region.tolerance_factor)
+
+    def reg_tol(self, b):
+        """the region's own allowance for "inside" at coordinate b (atol + rtol*|b| of Region.__contains__), exact"""
+        return self.tf * (min(h - l for l, h in zip(self.lo, self.hi)) + abs(FR(b)))
 
     def frac_dist(self, ax, x):
         """distance (in cells) of coordinate x to the nearest face of axis ax, exact"""
@@ -649,11 +1131,35 @@ class Ctx:
         return Fraction(1, 10**9) * (self.c[ax] + abs(self.lo[ax]) + abs(self.hi[ax]))
 
 
+SAMPLE_ABOVE = 700
+
+
+def cell_sample(ctx, n):
+    """all cells of a result of up to SAMPLE_ABOVE cells; of a larger one the corner cells, the two outermost layers
+    along every axis at random positions and random interior cells (all cells carry distinct tokens: a result that is
+    shifted, reversed or cropped at the wrong end differs from the source in every cell). Reproducible from the case."""
+    n = [int(k) for k in n]
+    total = int(np.prod(n)) if n else 1
+    if total <= SAMPLE_ABOVE:
+        return list(itertools.product(*[range(k) for k in n]))
+    rng = random.Random(ctx.case["sub"] * 31 + total)
+    out = set(itertools.product(*[sorted({0, k - 1}) for k in n]))
+    for a, k in enumerate(n):
+        for layer in {0, min(1, k - 1), max(k - 2, 0), k - 1}:
+            for _ in range(12):
+                j = [rng.randrange(v) for v in n]
+                j[a] = layer
+                out.add(tuple(j))
+    for _ in range(300):
+        out.add(tuple(rng.randrange(v) for v in n))
+    return sorted(out)
+
+
 def same_values(ctx, g_arr, g_valid, g_mesh, src_point_of, fail, what, skip=None):
     """search oracle: every result cell carries the source's value and validity at the result cell's centre.
     src_point_of(centre) -> full-dimensional point in the source (or None when outside: handled by caller)"""
     f = ctx.f
-    for j in itertools.product(*[range(int(k)) for k in g_mesh.n]):
+    for j in cell_sample(ctx, g_mesh.n):
         q = g_mesh.index2point(j)
         if skip is not None and skip(j, q):
             continue
@@ -699,7 +1205,7 @@ def run_sel(ctx, op, r, fail):
     what = f"sel({op['dim']}={op['arg']})"
     arg = op["arg"]
     # which answer does the property demand?
-    if op["dim"] not in ctx.dims or arg in ("bad3", "badstr"):
+    if op["dim"] not in ctx.dims or isinstance(arg, str):
         expect = "err"
         ax = None
     else:
@@ -877,8 +1383,10 @@ def run_getitem(ctx, op, r, fail):
         item = df.Region(p1=op["p1"], p2=op["p2"])
         what = f"[Region({op['p1']}, {op['p2']})]"
         inside = all(mesh.region.pmin[a] <= item.pmin[a] and item.pmax[a] <= mesh.region.pmax[a] for a in range(ctx.ndim))
-        outside = any(item.pmin[a] < mesh.region.pmin[a] - 0.01 * mesh.cell[a] or item.pmax[a] > mesh.region.pmax[a] + 0.01 * mesh.cell[a]
-                      for a in range(ctx.ndim))
+        # outside = some corner lies beyond the boundary by clearly more (4x) than the region's own allowance for
+        # "inside" (tolerance_factor x (shortest edge + |coordinate|)); in between the answer is left open
+        outside = any(ctx.lo[a] - FR(item.pmin[a]) > 4 * ctx.reg_tol(item.pmin[a]) or
+                      FR(item.pmax[a]) - ctx.hi[a] > 4 * ctx.reg_tol(item.pmax[a]) for a in range(ctx.ndim))
         expect = "ok" if inside else ("err" if outside else None)
         box = (item.pmin, item.pmax)
     r["mesh"] = attempt(lambda: mesh[item])
@@ -961,10 +1469,14 @@ def run_pad(ctx, op, r, fail):
     f, mesh = ctx.f, ctx.mesh
     pw = {d: (lo, hi) for d, lo, hi in op["pad"]}
     mode = op["mode"]
+    raw = op.get("raw")  # malformed widths / mode: Field.pad must refuse (Mesh.pad alone is not judged)
+    if raw:
+        pw = {d: RAW_PAD.get(raw, (lo, hi)) for d, lo, hi in op["pad"]}
+        mode = "nosuch" if raw == "badmode" else mode
     r["mesh"] = attempt(lambda: mesh.pad(pw))
     r["field"] = attempt(lambda: f.pad(pw, mode=mode))
     what = f"pad({pw}, {mode})"
-    valid_req = all(d in ctx.dims for d in pw) and all(lo >= 0 and hi >= 0 for lo, hi in pw.values())
+    valid_req = not raw and all(d in ctx.dims for d in pw) and all(lo >= 0 and hi >= 0 for lo, hi in pw.values())
     r["expect"] = "ok" if valid_req else "err"
     if r["field"][0] != r["expect"]:
         fail(f"{what}: {'valid' if valid_req else 'malformed'} request {'rejected' if r['field'][0] == 'err' else 'accepted'} ({r['field'][1] if r['field'][0] == 'err' else ''})")
@@ -1019,7 +1531,7 @@ def run_resample(ctx, op, r, fail):
     n = op["n"]
     r["field"] = attempt(lambda: f.resample(n))
     what = f"resample({n})"
-    valid_req = len(n) == ctx.ndim and all(k > 0 for k in n)
+    valid_req = isinstance(n, list) and len(n) == ctx.ndim and all(isinstance(k, int) and k > 0 for k in n)
     r["expect"] = "ok" if valid_req else "err"
     if r["field"][0] != r["expect"]:
         fail(f"{what}: {'valid' if valid_req else 'malformed'} request {'rejected' if r['field'][0] == 'err' else 'accepted'} ({r['field'][1] if r['field'][0] == 'err' else ''})")
@@ -1053,12 +1565,37 @@ def run_resample(ctx, op, r, fail):
         fail(f"{what}: resampling to the same cell counts changed the field")
 
 
-RUNNERS = {"sel": run_sel, "getname": run_getitem, "getregion": run_getitem, "r2s": run_r2s, "pad": run_pad,
+RAW_PAD = {"float": (1.5, 1), "len1": (1,), "len3": (1, 1, 1), "str": "ab", "scalar": 1, "none": None}
+BAD_ITEMS = ["int", "none", "tuple", "float", "list", "slice", "mesh", "reg-lessdim", "reg-moredim"]
+
+
+def run_getbad(ctx, op, r, fail):
+    """items that are neither a subregion name nor a region of the mesh's dimension: both lookups must refuse"""
+    f, mesh = ctx.f, ctx.mesh
+    kind = op["kind"]
+    mid = [float(x) for x in mesh.region.center]
+    half = [float(x) / 4 for x in mesh.region.edges]
+    if kind == "reg-lessdim":
+        item = df.Region(p1=[m - h for m, h in zip(mid[1:], half[1:])], p2=[m + h for m, h in zip(mid[1:], half[1:])])
+    elif kind == "reg-moredim":
+        item = df.Region(p1=[m - h for m, h in zip(mid + mid[:1], half + half[:1])],
+                         p2=[m + h for m, h in zip(mid + mid[:1], half + half[:1])])
+    else:
+        item = {"int": 5, "none": None, "tuple": (1.0, 2.0), "float": 1.5, "list": [1, 2], "slice": slice(1, 2), "mesh": mesh}[kind]
+    r["mesh"] = attempt(lambda: mesh[item])
+    r["field"] = attempt(lambda: f[item])
+    r["expect"] = "err"
+    for k in ("mesh", "field"):
+        if r[k][0] != "err":
+            fail(f"[{kind} item]: malformed request accepted by {k}")
+
+
+RUNNERS = {"getbad": run_getbad, "sel": run_sel, "getname": run_getitem, "getregion": run_getitem, "r2s": run_r2s, "pad": run_pad,
            "resample": run_resample}
 
 
 def run_impl(case):
-    obs = {"oracle": [], "tags": [f"regime:{case['regime']}", f"fam:{case['fam']}"], "res": []}
+    obs = {"oracle": [], "tags": [f"regime:{case['regime']}", f"fam:{case['fam']}", f"stream:{case.get('stream', 'base')}"], "res": []}
     try:
         ctx = Ctx(case)
     except Exception as e:
@@ -1100,6 +1637,9 @@ def run_impl(case):
             obs["oracle"].append(t)
         obs["res"].append(r)
         obs["tags"].append("op:" + op.get("tag", op["op"]).split("-")[0] + ":" + (r.get("expect") or "any"))
+        obs["tags"] += op.get("xt", [])
+        if op.get("nomodel"):
+            obs["tags"].append("oracle-only-op")
         if op["op"] == "pad" and r.get("expect") == "ok":
             obs["tags"].append("mode:" + op["mode"])
         fr = r.get("field")
@@ -1117,7 +1657,7 @@ def run_impl(case):
 def arg_json(arg):
     if arg is None:
         return None
-    if arg in ("bad3", "badstr"):
+    if isinstance(arg, str):  # every malformed request is the model's `SelArg.bad`
         return {"range": ["0", "1", "2"]} if arg == "bad3" else {"str": "a"}
     if "point" in arg:
         return {"point": Q(arg["point"])}
@@ -1138,6 +1678,8 @@ def model_requests(case, obs):
     reqs = []
     for op in case["ops"]:
         kind = op["op"]
+        if nreq(op) == 0:
+            continue
         if kind == "sel":
             a = arg_json(op["arg"])
             reqs.append(dict(op="sel_convert", mesh=mj, dim=op["dim"], arg=a))
@@ -1166,7 +1708,13 @@ def model_requests(case, obs):
 FAM_OF = {"sel": "sel", "getname": "getitem", "getregion": "getitem", "pad": "pad", "resample": "resample", "r2s": "getitem"}
 
 
-NREQ = {"sel": 3, "getname": 2, "getregion": 2, "r2s": 1, "pad": 2, "resample": 1}
+NREQ = {"sel": 3, "getname": 2, "getregion": 2, "r2s": 1, "pad": 2, "resample": 1, "getbad": 0}
+
+
+def nreq(op):
+    """number of model requests of an operation; `nomodel` operations are judged by the oracle on the real code alone
+    (requests the driver protocol cannot express, resampling FROM thousands of cells)"""
+    return 0 if op.get("nomodel") else NREQ[op["op"]]
 
 
 def okerr(resp):
@@ -1255,6 +1803,8 @@ def compare(case, obs, rs):
     dis = []
     pos = 0
     for k, (op, r) in enumerate(zip(case["ops"], obs["res"])):
+        if nreq(op) == 0:
+            continue
         resp = rs[pos:pos + NREQ[op["op"]]]
         pos += NREQ[op["op"]]
         name = f"op {k} {op['op']}"
@@ -1271,7 +1821,7 @@ def compare(case, obs, rs):
             ax = r.get("ax")
             arg = op["arg"]
             xs = []
-            if ax is not None and arg not in ("bad3", "badstr"):
+            if ax is not None and not isinstance(arg, str):
                 xs = [ctx.mesh.region.center[ax]] if arg is None else ([arg["point"]] if "point" in arg else list(arg["range"]))
             amb = ax is not None and any(ctx.ambiguous(ax, x) for x in xs)
             is_range = isinstance(arg, dict) and "range" in arg
